@@ -686,6 +686,7 @@ func main() {
 				}
 				f([]byte(bases[i]))
 				mc.Mutations1([]byte(bases[i]), mc.AllBytes, f)
+				mc.MutationsTok([]byte(bases[i]), mc.Lookalikes, f)
 			})
 		})
 		r.Phase("long texts within the length limit: zero-padded digit runs of every length, long separator runs, separators between every digit", "complete grid", func() {
